@@ -503,7 +503,9 @@ theorem PGok_step (t : Tree) (hn : t.uids.Nodup) (h : PGok t) (op : Op) : PGok (
       split
       · exact h
       · rename_i hg
-        exact PGok_pgSet t hn o g s hs (by simpa using hg) h
+        split
+        · exact h
+        · exact PGok_pgSet t hn o g s hs (by simpa using hg) h
   | pgDrop o g =>
     simp only [step]; split
     · dsimp only; exact PGok_pgDrop t o g h
